@@ -596,6 +596,7 @@ pub fn property_c11() -> Property {
         parts: vec![
             Box::new(PropPart(C11)),
             Box::new(PropPart(crate::props::e2e::C11Agent)),
+            Box::new(PropPart(crate::props::bin_parts::C11Cli)),
         ],
     }
 }
